@@ -511,3 +511,23 @@ Example failed_opt_push_refuted :
   | None => False
   end.
 Proof. vm_compute. repeat split; reflexivity. Qed.
+
+(* in every reachable state at most one hash entry matches a query, so the
+   lookup of the HashCompressor gives the same answer for every arrangement
+   (probe order) of its entries *)
+Theorem hash_lookup_order_irrelevant_reachable c ops s0 s a ws l pos es' :
+  init c = Some s0 -> Forall wf_op ops -> run_acc c s0 acc0 ops = (s, a, ws) -> all_alive ws ->
+  (forall e, In e (w_hash (b_w s)) <-> In e es') ->
+  hash_find (w_buf (b_w s)) (mlen (w_buf (b_w s))) es' l pos =
+  hash_find (w_buf (b_w s)) (mlen (w_buf (b_w s))) (w_hash (b_w s)) l pos.
+Proof.
+  intros HI Hwf HR AL Hset. destruct (init_inv c s0 HI) as (HB0 & HC0).
+  destruct (run_acc_layout c ops s0 acc0 [12] s a ws HB0 HC0 (init_layout c s0 HI) Hwf HR AL) as (_ & _ & bs & HL).
+  destruct HL as (_ & (_ & _ & CH & CU) & _).
+  apply hash_find_order_irrelevant; [exact Hset| |].
+  - eapply Forall_weaken; [|exact CH]. intros [h t] (l0 & ls0 & e0 & (V & _ & B & _) & _). cbn [fst] in *.
+    rewrite (label_at_here _ _ _ V B). discriminate.
+  - intros [h1 t1] [h2 t2] I1 I2 (hl1 & A1 & B1 & C1) (hl2 & A2 & B2 & C2). cbn [fst snd] in *. subst t1 t2.
+    apply (CU h1 h2 pos hl1 hl2); auto.
+    apply label_eq_spec in B1, B2. congruence.
+Qed.
